@@ -32,6 +32,8 @@ func main() {
 	shadow := flag.String("shadow", "", "shadow solver command for cross-checking (e.g. 'z3-new -in -smt2')")
 	noifc := flag.Bool("noifconv", false, "disable if-conversion")
 	smtlog := flag.String("smtlog", "", "write solver input of worker 0 to file")
+	jobsFile := flag.String("jobs", "", "JSON file with pinned/seeded jobs to run concretely in the interpreter")
+	jobsOut := flag.String("jobsout", "", "output file for job outcomes")
 	flag.Parse()
 	_ = smtlog
 
@@ -67,6 +69,28 @@ func main() {
 	}
 	res := &result{LoadSec: loadS}
 	exit := 0
+	if *jobsFile != "" {
+		b, err := os.ReadFile(*jobsFile)
+		if err != nil {
+			fmt.Fprintln(os.Stderr, "ERROR:", err)
+			os.Exit(2)
+		}
+		var jobs []symgo.Job
+		if err := json.Unmarshal(b, &jobs); err != nil {
+			fmt.Fprintln(os.Stderr, "ERROR:", err)
+			os.Exit(2)
+		}
+		cfg := &symgo.Config{MaxDecisions: *maxDec, MaxSteps: *maxSteps, MaxDepth: 400, QueryTimeout: *qto,
+			IntMode: *ints == "int", Stubs: ld.Stubs, InitSkip: ld.InitOK, NoIfConv: *noifc}
+		outs, err := symgo.RunJobs(ld.Prog, ld.HPkg, cfg, jobs)
+		if err != nil {
+			fmt.Fprintln(os.Stderr, "ERROR:", err)
+			os.Exit(2)
+		}
+		ob, _ := json.Marshal(outs)
+		os.WriteFile(*jobsOut, ob, 0o644)
+		return
+	}
 	for _, e := range strings.Split(*entries, ",") {
 		cfg := &symgo.Config{
 			Entry: e, MaxDecisions: *maxDec, MaxSteps: *maxSteps, MaxDepth: 400,
